@@ -24,7 +24,7 @@ class Hang(BaseException):
     """Raised by the watchdog inside whatever code is running."""
 
 
-CPU_BUDGET = 4.0      # seconds of process CPU time per step
+CPU_BUDGET = 3.0      # seconds of process CPU time per step
 WALL_BUDGET = 30      # seconds wall clock per step (SIGALRM)
 
 
